@@ -63,6 +63,20 @@ theorem accepted_tx_shape (s : St) (ms : List Op) (h : âˆ€ e, (txStep s ms).2 â‰
     simp only [hm, if_true] at h
     exact h .mixedTx rfl
 
+/-- **agreement_inv_checked** â€” `agreement_inv` with the side condition in its executable form: if the coverage check
+    `coveredB` (every descriptor of M-LC lies in a state info of M-Core) holds in every state along the run â€” the driver
+    evaluates it after every op of every correspondence trace â€” then the agreement invariant holds at the end. -/
+theorem agreement_inv_checked (p : Core.Params) (ops : List Op) (hc : CoveredRun (init p) ops) : AgreeInv (run (init p) ops) :=
+  agreement_inv p ops (safeRun_of_covered ops (init p) hc)
+
+example : coveredB sA = true := by decide
+
+/-- the designation theorems carry over to single-message transaction histories in the same way -/
+theorem designation_tx_partial (p : Core.Params) (txs : List (List Op)) (h1 : SingleMsg txs) :
+    MapsInv (runTx (init p) txs) := by
+  rw [runTx_single txs (init p) h1]
+  exact (designation_unique_stable p txs.flatten).1
+
 /-- a mixed transaction changes nothing -/
 theorem mixed_tx_refused (s : St) (ms : List Op) (hn : ms.findSome? (nestedRefusal s) = none)
     (hsg : ms.findSome? (signerRefusal s) = none) (hm : mixedRefusal ms = true) : txStep s ms = (s, .ante .mixedTx) := by
